@@ -59,6 +59,45 @@ class RingHooks(AwsHooks):
     s_aws_atomic_init_ptr = s_aws_atomic_store_ptr_explicit
 
 
+def init_rule(R, P):
+    """INIT (under FREE-REGION): after a successful aws_ring_buffer_init the ring described by [allocation, allocation_end)
+    is exactly the block that was allocated - allocation_end - allocation equals the size acquired - and head and tail start
+    at allocation (NUM, all sizes)."""
+    f = P.fn("aws_ring_buffer_init")
+    if not R.require(f is not None, "aws_ring_buffer_init not found"):
+        return
+    R.fn(f)
+    num = Num(f, P, RingHooks(), max_paths=4000)
+    rets = [x for b in f.blocks.values() for x in b.elems if x["k"] == "ret"]
+    try:
+        sts = num.states_at({r["id"] for r in rets})
+    except Limit as ex:
+        R.broken(str(ex))
+        return
+    ok, det, cnt = True, "", 0
+    for r in rets:
+        for st in sts.get(r["id"], []):
+            rv = num.val(r["a"][0], st)
+            if not (rv is not None and rv.is_const() and rv.cval() == 0):
+                continue
+            cnt += 1
+            A = [v for k, v in st.env.items() if k.endswith(")->allocation")]
+            E = [v for k, v in st.env.items() if k.endswith(")->allocation_end")]
+            if len(A) != 1 or len(E) != 1 or len(A[0].t) != 1:
+                ok, det = False, "allocation / allocation_end not tracked"
+                continue
+            ext = st.extent.get(list(A[0].t)[0][0])
+            if ext is None or not (entails(st, E[0] - A[0] - ext) and entails(st, ext - (E[0] - A[0]))):
+                ok, det = False, "allocation_end - allocation = %r, the block allocated has %r bytes" % (E[0] - A[0], ext)
+            stores = st.notes.get("atomic_stores", [])
+            for fld in ("head", "tail"):
+                vs = [s[1] for s in stores if s[0] == fld]
+                if not vs or not all(v is not None and v == A[0] for v in vs):
+                    ok, det = False, "%s does not start at allocation" % fld
+    R.check(ok and cnt >= 1, "FREE-REGION", "init:ring-is-the-allocated-block", "%s()" % f.name, "allocation_end - allocation == size of the block acquired; head = tail = allocation (%d states)" % cnt,
+            "the ring's end does not match the block that was allocated (%s): buffers are handed out beyond the storage" % det)
+
+
 def analyse(ctx, replace=None, only=None):
     R = ctx.R
     P = ctx.program([FILE], "ship", replace=replace)
@@ -68,6 +107,7 @@ def analyse(ctx, replace=None, only=None):
             return
     for f in fns.values():
         R.fn(f)
+    init_rule(R, P)
     n_paths = 0
     n_refused = [0]
     for name in ("aws_ring_buffer_acquire", "aws_ring_buffer_acquire_up_to"):
@@ -195,6 +235,7 @@ def analyse(ctx, replace=None, only=None):
 
 
 MUTANTS = [
+    {"name": "ring-end-rounded-up-past-the-block", "file": FILE, "expect": "FREE-REGION", "old": "    ring_buf->allocation_end = ring_buf->allocation + size;", "new": "    ring_buf->allocation_end = ring_buf->allocation + ((size + sizeof(void *) - 1) & ~(sizeof(void *) - 1));"},
     {"name": "idle-ring-refuses-full-capacity", "file": FILE, "expect": "AVAILABLE", "old": "        if (requested_size > ring_space) {", "new": "        if (requested_size >= ring_space) {"},
     {"name": "tail-ahead-no-slack", "file": FILE, "expect": "FREE-REGION", "old": "        size_t space = tail_cpy - head_cpy - 1;\n", "new": "        size_t space = tail_cpy - head_cpy;\n"},
     {"name": "wrap-reaches-tail", "file": FILE, "expect": "FREE-REGION",
